@@ -81,6 +81,25 @@ class Certificate:
             to_return.append(psid_ssp["psid"])
         return tuple(to_return)
 
+    def authorizes_its_aid(self, its_aid: int) -> bool:
+        """
+        Check whether the ITS-AID (PSID) is among the application permissions
+        of this certificate.
+
+        Parameters
+        ----------
+        its_aid : int
+            The ITS-AID carried in the headerInfo of a signed message.
+
+        Returns
+        -------
+        bool
+            True if the certificate has an appPermissions entry for the ITS-AID.
+        """
+        app_permissions = self.certificate.get(
+            "toBeSigned", {}).get("appPermissions", [])
+        return any(entry.get("psid") == its_aid for entry in app_permissions)
+
     @staticmethod
     def as_clear_certificate() -> Certificate:
         """
